@@ -26,6 +26,28 @@ func C09(c *Ctx) {
 	if g == nil {
 		return
 	}
+	cloneOwnership(c, "C09-a", nil)
+	r.MinRule("C09-a", 12)
+
+	ap := g.Pkg("ast")
+	_ = ap
+	// ---- b: merge guards
+	c09Merge(c, g)
+	// ---- c
+	traversalExhaustiveness(c, "C09-c", nil)
+	// ---- d
+	c09Entrypoints(c, g)
+}
+
+
+// cloneOwnership decides the clone-before-mutate rule under the given rule id, for all kinds or only the listed ones.
+// A type is "mutated in place" when the optimizer visitors or the builder store to one of its fields.
+func cloneOwnership(c *Ctx, rule string, only map[string]bool) {
+	r := c.R
+	g := c.G()
+	if g == nil {
+		return
+	}
 	ap := g.Pkg("ast")
 	kinds, _ := c.exprKinds()
 	kindByName := map[string]exprKind{}
@@ -67,6 +89,33 @@ func C09(c *Ctx) {
 			return true
 		})
 	}
+	// stores by the builder (FuncIx bookkeeping) mutate the shared AST as well
+	bpk := g.Pkg("builder")
+	for _, fd := range load.AllFuncDecls(bpk) {
+		if fd.Body == nil {
+			continue
+		}
+		ast.Inspect(fd.Body, func(n ast.Node) bool {
+			as, ok := n.(*ast.AssignStmt)
+			if !ok || as.Tok == token.DEFINE {
+				return true
+			}
+			for _, l := range as.Lhs {
+				sel, ok := l.(*ast.SelectorExpr)
+				if !ok {
+					continue
+				}
+				if p, ok := bpk.TypesInfo.TypeOf(sel.X).(*types.Pointer); ok {
+					if n, ok := p.Elem().(*types.Named); ok && n.Obj().Pkg() != nil && n.Obj().Pkg().Name() == "ast" {
+						if _, isKind := kindByName[n.Obj().Name()]; isKind {
+							mutated[mut{n.Obj().Name(), sel.Sel.Name}] = as.Pos()
+						}
+					}
+				}
+			}
+			return true
+		})
+	}
 	ce := load.FuncDecl(ap, "", "cloneExpr")
 	if ce == nil {
 		r.Fatal("anchor ast.cloneExpr not found")
@@ -91,6 +140,9 @@ func C09(c *Ctx) {
 	}
 	sort.Strings(names)
 	for _, kn := range names {
+		if only != nil && !only[kn] {
+			continue
+		}
 		fields := needClone[kn]
 		sort.Strings(fields)
 		construct := "G.ast.cloneExpr:kind=" + kn
@@ -100,7 +152,7 @@ func C09(c *Ctx) {
 			if len(fields) > 0 {
 				why = "is mutated in place by the optimizer (" + strings.Join(fields, ",") + ")"
 			}
-			r.Bad("C09-a", construct, "", g.Where(ce.Pos()), "*"+kn+" "+why+" but cloneExpr has no case for it: an inlined rule body shares the node with the original rule and with every other inlined copy, so one rewrite changes all of them")
+			r.Bad(rule, construct, "", g.Where(ce.Pos()), "*"+kn+" "+why+" but cloneExpr has no case for it: an inlined rule body shares the node with the original rule and with every other inlined copy, so one rewrite changes all of them")
 			continue
 		}
 		// the returned literal
@@ -116,7 +168,49 @@ func C09(c *Ctx) {
 			return true
 		})
 		if lit == nil {
-			r.Bad("C09-a", construct, "", g.Where(cc.Pos()), "case does not return a freshly allocated &"+kn+"{…}")
+			// shallow struct copy `c := *expr; return &c` is a fresh node; it is sufficient iff the type has no Expression
+			// children and none of its slice fields is extended in place by the optimizer
+			shallow := false
+			copyVar := ""
+			ast.Inspect(cc, func(n ast.Node) bool {
+				switch x := n.(type) {
+				case *ast.AssignStmt:
+					if len(x.Rhs) == 1 && nospace(x.Rhs[0]) == "*expr" {
+						copyVar = nospace(x.Lhs[0])
+					}
+				case *ast.ReturnStmt:
+					if len(x.Results) == 1 && copyVar != "" && nospace(x.Results[0]) == "&"+copyVar {
+						shallow = true
+					}
+				}
+				return true
+			})
+			if shallow {
+				k := kindByName[kn]
+				st := k.Named.Underlying().(*types.Struct)
+				var shared []string
+				for i := 0; i < st.NumFields(); i++ {
+					f := st.Field(i)
+					if _, isSlice := f.Type().(*types.Slice); !isSlice {
+						continue
+					}
+					for _, mf := range fields {
+						if mf == f.Name() {
+							shared = append(shared, f.Name())
+						}
+					}
+				}
+				switch {
+				case len(k.Children) > 0:
+					r.Bad(rule, construct, "", g.Where(cc.Pos()), "shallow struct copy of a node with Expression children ("+strings.Join(k.Children, ",")+"): the children are shared")
+				case len(shared) > 0:
+					r.Bad(rule, construct, "", g.Where(cc.Pos()), "shallow struct copy shares the backing arrays of "+strings.Join(shared, ",")+", which the optimizer extends in place with append: a merge in one inlined copy overwrites what a merge in another copy appended")
+				default:
+					r.Ok(rule, construct, "", g.Where(cc.Pos()), "shallow struct copy of a leaf without in-place extended slices")
+				}
+				continue
+			}
+			r.Bad(rule, construct, "", g.Where(cc.Pos()), "case does not return a freshly allocated &"+kn+"{…}")
 			continue
 		}
 		vals := map[string]ast.Expr{}
@@ -174,19 +268,11 @@ func C09(c *Ctx) {
 			}
 		}
 		if len(bad) > 0 {
-			r.Bad("C09-a", construct, "", g.Where(cc.Pos()), strings.Join(bad, "; "))
+			r.Bad(rule, construct, "", g.Where(cc.Pos()), strings.Join(bad, "; "))
 		} else {
-			r.Ok("C09-a", construct, "", g.Where(cc.Pos()), "fresh node; children cloned; mutated slices copied (mutated fields: "+strings.Join(fields, ",")+")")
+			r.Ok(rule, construct, "", g.Where(cc.Pos()), "fresh node; children cloned; mutated slices copied (mutated fields: "+strings.Join(fields, ",")+")")
 		}
 	}
-	r.MinRule("C09-a", 12)
-
-	// ---- b: merge guards
-	c09Merge(c, g)
-	// ---- c
-	traversalExhaustiveness(c, "C09-c", nil)
-	// ---- d
-	c09Entrypoints(c, g)
 }
 
 func c09Merge(c *Ctx, g *load.G) {
